@@ -442,6 +442,8 @@ class RefModule:
         for kk, lst in self.externals.items():
             if kk == key and lst and len(lst[0][1]) != L:
                 raise Reject("length differs from existing inputs of this key")
+        if key != "i" and any(t in [x[0] for x in self.externals.get(key, [])] for t in targets):
+            raise Unspec("second clamp of the same state on the same row (which one wins is unspecified)")
         lst = self.externals.setdefault(key, [])
         for t, r in zip(targets, rows):
             lst.append([t, [float(x) for x in r]])
